@@ -759,11 +759,11 @@ class NAryMatrixRelation(AbstractBaseRelation, SimpleRepr):
 
     def _slice_matrix(self, sliced_vars, sliced_values, ignore_extra_vars=False):
 
-        s_vars = list(sliced_vars)
-        s_values = list(sliced_values)
+        s_vars = []
+        s_values = []
 
         var_names = [v.name for v in self._variables]
-        for i, v in enumerate(sliced_vars):
+        for v, val in zip(sliced_vars, sliced_values):
             if v not in var_names:
                 if not ignore_extra_vars:
                     raise AttributeError(
@@ -771,9 +771,9 @@ class NAryMatrixRelation(AbstractBaseRelation, SimpleRepr):
                             v, self._variables
                         )
                     )
-                else:
-                    del s_vars[i]
-                    del s_values[i]
+            else:
+                s_vars.append(v)
+                s_values.append(val)
 
         slices = []
         slice_vars = []
